@@ -3,6 +3,12 @@
 import json, os
 V = os.path.dirname(os.path.abspath(__file__))
 conf = json.load(open(os.path.join(V, "checks.json")))
+cd = os.path.join(V, "checks.d")
+for f in sorted(os.listdir(cd)) if os.path.isdir(cd) else []:
+    if f.endswith(".json"):
+        for k, v in json.load(open(os.path.join(cd, f))).items():
+            if v.get("ready"):
+                conf["checks"][k] = v
 props = [json.loads(l) for l in open(os.path.join(V, "properties.jsonl"))]
 na = json.load(open(os.path.join(V, "not_applicable.json"))) if os.path.exists(os.path.join(V, "not_applicable.json")) else {}
 hooks_commits = conf.get("hook_commits", [])
